@@ -48,6 +48,7 @@ package op
 
 //@ func op.ValidateRefreshTokenRequest
 //@   requires valid(tokenReq) && valid(exchanger)
+//@   modifies wallclock, os(exchanger), os(exchanger.Storage()), storageFailed
 //@   ensures fail-closed: err != nil ==> result0 == nil && result1 == nil
 //@   ensures valid: err == nil ==> valid(result0) && valid(result1)
 //@   ensures client-binding: err == nil ==> result1.GetID() == result0.GetClientID()
@@ -97,7 +98,7 @@ package op
 //@   requires valid(r) && valid(decoder)
 //@   ensures ok: err == nil ==> result0 != nil
 //@   ensures fail-closed: err != nil ==> result0 == nil
-//@   ensures storage-fail-closed: !old(storageFailed) && storageFailed ==> err != nil
+//@   ensures storage-fail-closed!: !old(storageFailed) && storageFailed ==> err != nil
 
 // Handler: exactly one response; a 200 answer carries tokens issued for the request that
 // ValidateRefreshTokenRequest accepted, with the presented refresh token handed on for rotation.
@@ -237,7 +238,7 @@ package op
 //@   defines authenticated: err == nil ==> authenticated(result0.Issuer)
 //@   ensures signature-configured-set: err == nil && v.keySet != nil ==> sigChecked(assertion, jwtPayload(assertion), v.keySet, nil)
 //@   ensures signature-issuer-keys: err == nil && v.keySet == nil ==> clientKeysChecked(assertion, jwtPayload(assertion), v.Storage, result0.Issuer)
-//@   ensures storage-fail-closed: !old(storageFailed) && storageFailed ==> err != nil
+//@   ensures storage-fail-closed!: !old(storageFailed) && storageFailed ==> err != nil
 
 // A request object counts only when it is signed with a key of the client it names as issuer, and
 // that issuer is the outer client_id; until then the auth request is left untouched.
@@ -258,7 +259,7 @@ package op
 //@        && (callarg("oidc.ParseToken", 1, "*oidc.RequestObject").ResponseType == "" || callarg("oidc.ParseToken", 1, "*oidc.RequestObject").ResponseType == old(authReq.ResponseType))
 //@        && callarg("oidc.ParseToken", 1, "*oidc.RequestObject").Issuer == callarg("oidc.ParseToken", 1, "*oidc.RequestObject").ClientID
 //@   ensures targets-this-issuer: result == nil ==> callres("slices.Contains", 0)
-//@   ensures storage-fail-closed: !old(storageFailed) && storageFailed ==> result != nil
+//@   ensures storage-fail-closed!: !old(storageFailed) && storageFailed ==> result != nil
 
 //@ func op.CopyRequestObjectToAuthRequest
 //@   requires valid(authReq) && valid(requestObject)
@@ -348,7 +349,7 @@ package op
 // Every redirect-enabled error is raised only after the redirect URI was validated.
 //@ func op.ValidateAuthRequestClient
 //@   requires valid(authReq) && valid(client)
-//@   ensures storage-fail-closed: !old(storageFailed) && storageFailed ==> err != nil
+//@   ensures storage-fail-closed!: !old(storageFailed) && storageFailed ==> err != nil
 //@   ensures validated-or-disabled: err != nil && !redirectDisabledErr(err) ==> validatedRedirect(old(authReq.RedirectURI))
 //@   ensures ok-validated: err == nil ==> validatedRedirect(old(authReq.RedirectURI))
 //@   ensures uri-kept: authReq.RedirectURI == old(authReq.RedirectURI)
@@ -437,13 +438,14 @@ package op
 //@ func op.AuthorizeClientIDSecret
 //@   requires valid(storage)
 //@   defines authenticated: result == nil ==> authenticated(clientID)
-//@   ensures storage-fail-closed: !old(storageFailed) && storageFailed ==> err != nil
+//@   ensures storage-fail-closed!: !old(storageFailed) && storageFailed ==> err != nil
 
 // pkceSatisfied: whenever the authorization request carried a challenge the presented verifier matches it.
 //@ spec func pkceSatisfied(req AuthRequest, verifier string) bool = req.GetCodeChallenge() != nil ==> verifier != "" && challengeMatches(req.GetCodeChallenge(), verifier)
 
 //@ func op.AuthorizeCodeClient
 //@   requires valid(tokenReq) && valid(exchanger)
+//@   modifies wallclock, os(exchanger), os(exchanger.Storage()), storageFailed
 //@   ensures fail-closed: err != nil ==> request == nil && client == nil
 //@   ensures valid: err == nil ==> valid(request) && valid(client)
 //@   ensures code-issued: err == nil ==> codeOf(request, tokenReq.Code)
@@ -456,6 +458,7 @@ package op
 
 //@ func op.ValidateAccessTokenRequest
 //@   requires valid(tokenReq) && valid(exchanger)
+//@   modifies wallclock, os(exchanger), os(exchanger.Storage()), storageFailed
 //@   ensures fail-closed: err != nil ==> result0 == nil && result1 == nil
 //@   ensures valid: err == nil ==> valid(result0) && valid(result1)
 //@   ensures code-issued: err == nil ==> codeOf(result0, tokenReq.Code)
@@ -500,7 +503,7 @@ package op
 //@   modifies os(storage)
 //@   ensures authenticated: err == nil ==> authenticated(clientID)
 //@   ensures fail-closed: err != nil ==> clientID == ""
-//@   ensures storage-fail-closed: !old(storageFailed) && storageFailed ==> err != nil
+//@   ensures storage-fail-closed!: !old(storageFailed) && storageFailed ==> err != nil
 
 // The boolean result reports authentication truthfully: true only after the storage's secret check
 // or a verified private_key_jwt assertion for exactly the returned client id.
@@ -898,7 +901,7 @@ package op
 //@        && callarg("op.VerifyAccessToken", 1) == accessToken
 //@        && result0 == as(callres("op.VerifyAccessToken", 0), "*oidc.AccessTokenClaims").JWTID
 //@        && result1 == as(callres("op.VerifyAccessToken", 0), "*oidc.AccessTokenClaims").Subject
-//@   ensures storage-fail-closed: !old(storageFailed) && storageFailed ==> !result2
+//@   ensures storage-fail-closed!: !old(storageFailed) && storageFailed ==> !result2
 
 // UserInfo returns claims only for a token that passed getTokenIDAndSubject and that the storage
 // (the liveness oracle) accepted for exactly that id and subject.
